@@ -23,7 +23,7 @@ from iodata.api import FORMAT_MODULES, _select_format_module  # noqa: E402
 from iodata.utils import FileFormatError  # noqa: E402
 
 EXTRA_FMT = {"water_hf_ccpvtz_freq_qchem.out": "qchemlog", "h2o_dimer_eda_qchem5.3.out": "qchemlog", "PCGamess_PUNCH.dat": "gamess", "LiCl_STO4G_Gaussian_input.json": "json_qcschema", "LiCl_molecule.json": "json_qcschema"}
-EXTRAS = ("nh3_molden_cart.molden", *EXTRA_FMT)
+EXTRAS = ("nh3_molden_cart.molden", "al_fcc.xyz", "mgo.xyz", *EXTRA_FMT)  # always visited, whatever the per-format quota
 UNITS = ("angstrom", "electronvolt", "nanometer", "picosecond", "amu", "kcalmol", "calmol", "kjmol", "meter", "second")
 maxsize = int(sys.argv[1]) if len(sys.argv) > 1 else 300000
 data_dir = os.path.join(os.path.dirname(iodata.__file__), "test", "data")
